@@ -9,7 +9,10 @@ The *history* of a run is the list of operations delivered so far.  From it, wit
 * `Final H b`   : the closure of `Direct` under the parent links present in `H`;
 * `Skip H s`    : `s` lies strictly between a `Final` block and its parent;
 * `Safe H`      : the safety premise on a history (what consensus safety, C01, guarantees for the certificate
-                  sets a correct node can ever hold).
+                  sets a correct node can ever hold).  Since the D27 repair it no longer contains "the notarized
+                  block of a slot is the `Final` one": C01 excludes a second certified block only next to a
+                  *directly* finalized block (`notar_direct`); an implicitly finalized block can have a notarized
+                  sibling (one equivocating leader suffices), and the tracker must not panic on it.
 
 These definitions are used by the helper lemmas in `Proofs/FinalityExact.lean` and by the theorems in
 `Props/C08.lean`.
@@ -28,6 +31,8 @@ instance (H : List Op) (c p : Nat × Nat) : Decidable (LinkH H c p) := by unfold
 
 /-- directly finalized: fast-finalization, or finalization of the slot + notarization of the block -/
 def Direct (H : List Op) (b : Nat × Nat) : Prop := FastH H b ∨ (FinH H b.1 ∧ NotarH H b)
+
+instance (H : List Op) (b : Nat × Nat) : Decidable (Direct H b) := by unfold Direct; infer_instance
 
 /-- finalized = directly finalized or an ancestor (through links in the history) of a finalized block -/
 inductive Final (H : List Op) : Nat × Nat → Prop
@@ -49,8 +54,9 @@ structure Safe (G : List Op) : Prop where
   no_final_between : ∀ c p q, Final G c → LinkH G c p → Final G q → ¬ (p.1 < q.1 ∧ q.1 < c.1)
   /-- at most one notarized block per slot -/
   notar_fun : ∀ b b', NotarH G b → NotarH G b' → b.1 = b'.1 → b = b'
-  /-- the notarized block of a slot is the finalized one, if any -/
-  notar_final : ∀ b b', NotarH G b → Final G b' → b.1 = b'.1 → b = b'
+  /-- the notarized block of a slot is the *directly* finalized one, if any.  (Nothing of the kind holds for a
+      block that is finalized only through a descendant: it can have a notarized sibling, D27.) -/
+  notar_direct : ∀ b b', NotarH G b → Direct G b' → b.1 = b'.1 → b = b'
   /-- no finalization certificate for an implicitly skipped slot -/
   fin_not_skip : ∀ s, FinH G s → ¬ Skip G s
 
